@@ -66,15 +66,15 @@ type RR struct {
 
 // Resp is what was observed for one query thread.
 type Resp struct {
-	Done   bool  `json:"done"`
-	NoMsg  bool  `json:"nomsg"` // the handler wrote nothing
-	Rcode  int   `json:"rcode"`
-	Flags  int   `json:"flags"` // aa=1 tc=2 rd=4 ra=8 ad=16 cd=32 qr=64
-	Ans    []int `json:"ans"`   // generation stamps in the answer section
-	Extra  []int `json:"extra"` // generation stamps in authority and additional
-	Hit    int   `json:"hit"`   // 1 = cache hit counted while this thread ran, 0 = not
-	Secs   [][]RR `json:"secs"` // question, answer, authority, additional (without OPT)
-	Opt    string `json:"opt"`  // the OPT record of the response ("" if none)
+	Done   bool   `json:"done"`
+	NoMsg  bool   `json:"nomsg"` // the handler wrote nothing
+	Rcode  int    `json:"rcode"`
+	Flags  int    `json:"flags"` // aa=1 tc=2 rd=4 ra=8 ad=16 cd=32 qr=64
+	Ans    []int  `json:"ans"`   // generation stamps in the answer section
+	Extra  []int  `json:"extra"` // generation stamps in authority and additional
+	Hit    int    `json:"hit"`   // 1 = cache hit counted while this thread ran, 0 = not
+	Secs   [][]RR `json:"secs"`  // question, answer, authority, additional (without OPT)
+	Opt    string `json:"opt"`   // the OPT record of the response ("" if none)
 	SrvErr string `json:"srverr,omitempty"`
 }
 
@@ -96,7 +96,7 @@ func (s *SafeStats) IncrementCounterBy(key string, value int64) {
 	s.m[key] += value
 	s.mu.Unlock()
 }
-func (s *SafeStats) IncrementCounter(key string)        { s.IncrementCounterBy(key, 1) }
+func (s *SafeStats) IncrementCounter(key string)       { s.IncrementCounterBy(key, 1) }
 func (s *SafeStats) AddSample(key string, value int64) {}
 func (s *SafeStats) Get(key string) int64 {
 	s.mu.Lock()
@@ -269,21 +269,21 @@ type thr struct {
 
 // Runner replays a schedule against one handler.
 type Runner struct {
-	W       *World
-	H       *dnsserver.FBDNSDB
-	Stats   *SafeStats
-	Disk    map[int]File
-	threads []*thr
-	arrive  chan arrival
-	holder  int      // reload thread currently between reload_locked and return, or -1
-	Steps   []Step
-	Resps   []Resp   // per thread (queries)
-	RelErr  []string // per thread (reloads): "" not finished, "ok", "nokey", "timeout", "err:..."
-	EnvErr  []string
+	W         *World
+	H         *dnsserver.FBDNSDB
+	Stats     *SafeStats
+	Disk      map[int]File
+	threads   []*thr
+	arrive    chan arrival
+	holder    int // reload thread currently between reload_locked and return, or -1
+	Steps     []Step
+	Resps     []Resp   // per thread (queries)
+	RelErr    []string // per thread (reloads): "" not finished, "ok", "nokey", "timeout", "err:..."
+	EnvErr    []string
 	BlockWait time.Duration
 	StepWait  time.Duration
-	Err     string
-	deferred []arrival // arrivals of threads that got the lock while its holder had not yet reported its return
+	Err       string
+	deferred  []arrival // arrivals of threads that got the lock while its holder had not yet reported its return
 }
 
 func goid() int64 {
